@@ -1,6 +1,7 @@
 (** C06 — property theorems only.  Each is closed by [exact] of a lemma in Proofs*.v and followed by
     [Print Assumptions]. *)
-From V Require Import Base.Util Gen.C06_tables_gen C06.Model C06.Spec C06.Proofs C06.ProofsMap C06.ProofsWriter C06.ProofsCli C06.Corr C06.ProofsCorr.
+From V Require Import Base.Util Gen.C06_tables_gen C06.Model C06.Spec C06.Proofs C06.ProofsMap C06.ProofsWriter C06.ProofsCli C06.Corr C06.ProofsCorr C06.ProofsLines C06.ProofsHolds C06.ProofsPaths.
+From V Require C20.Model.
 From V Require C06.Examples.
 
 Theorem C06_alphabet_decodes :
@@ -163,4 +164,61 @@ Theorem C06_named_write_for_mapped :
     fmap_lookup fmap (p_file p) = Some (e_fi e).
 Proof. exact named_write_for_mapped_lemma. Qed.
 Print Assumptions C06_named_write_for_mapped.
+
+Theorem C06_writer_segments_match_ops :
+  forall fmap os st, sw_run fmap os = Some st ->
+  exists es xs,
+    add_entries m0 es = Some (sw_map st) /\
+    decode_mappings (mbuf (sw_map st)) = Some (map seg_of_entry es) /\
+    expect fmap os = Some xs /\
+    Forall2 (ematch (c_buf (sw_cur st)) (nm_all (sw_names st))) es xs /\
+    entries_sorted es /\ Forall (at_prefix (c_buf (sw_cur st))) es.
+Proof. exact writer_segments_match_ops_lemma. Qed.
+Print Assumptions C06_writer_segments_match_ops.
+
+Theorem C06_model_holds_writer :
+  forall fmap ops st, sw_run fmap ops = Some st ->
+  holds (CWriter fmap ops (Some (sw_buffers st))) = true.
+Proof. exact holds_writer_lemma. Qed.
+Print Assumptions C06_model_holds_writer.
+
+Theorem C06_mappings_injective :
+  forall es es' m m',
+  add_entries m0 es = Some m -> add_entries m0 es' = Some m' -> mbuf m = mbuf m' ->
+  map seg_of_entry es = map seg_of_entry es'.
+Proof. exact mappings_injective_lemma. Qed.
+Print Assumptions C06_mappings_injective.
+
+Theorem C06_sources_resolve :
+  forall out src : str,
+  C20.Model.abs_ok (C20.Model.components out) = true -> C20.Model.is_file (C20.Model.components out) = true ->
+  C20.Model.abs_ok (C20.Model.components src) = true ->
+  exists rel, C20.Model.relative_s out src = Some rel /\ C20.Model.resolve_s out rel = C20.Model.normalize_s src.
+Proof. exact sources_resolve_lemma. Qed.
+Print Assumptions C06_sources_resolve.
+
+Theorem C06_sm_sources_resolve :
+  forall file srcs rels,
+  C20.Model.abs_ok (C20.Model.components file) = true -> C20.Model.is_file (C20.Model.components file) = true ->
+  Forall (fun p => C20.Model.abs_ok (C20.Model.components p) = true) srcs ->
+  sm_sources file srcs = Some rels ->
+  Forall2 (fun rel src => C20.Model.resolve_s file rel = C20.Model.normalize_s src) rels srcs.
+Proof. exact sm_sources_resolve_lemma. Qed.
+Print Assumptions C06_sm_sources_resolve.
+
+Theorem C06_model_holds_json :
+  forall file srcs rels,
+  sm_sources file srcs = Some rels ->
+  holds (CJson file srcs true (Some (file_name_s file, rels))) = true.
+Proof. exact holds_json_lemma. Qed.
+Print Assumptions C06_model_holds_json.
+
+Theorem C06_cli_sources_resolve :
+  forall fs op output rels,
+  C20.Model.abs_ok (C20.Model.components output) = true -> C20.Model.is_file (C20.Model.components output) = true ->
+  Forall (fun p => C20.Model.abs_ok (C20.Model.components p) = true) (fs_schema fs ++ fs_ops fs) ->
+  cli_sources fs op output = Some rels ->
+  Forall2 (fun rel p => C20.Model.resolve_s output rel = C20.Model.normalize_s p) rels (sources_of fs op).
+Proof. exact cli_sources_resolve_lemma. Qed.
+Print Assumptions C06_cli_sources_resolve.
 
